@@ -173,6 +173,7 @@ func sessions(tier string) []session {
 		{Name: "2-concurrent-same-step", Groups: [][]call{{cGreetA, cGreetB}}, MaxDelay: 1},
 		{Name: "1-greet-signal", Groups: [][]call{{cGreetS}}, MaxDelay: 1},
 		{Name: "2-concurrent-same-run-id", Groups: [][]call{{cGreetA, cGreetA}}, MaxDelay: 1},
+		{Name: "3-serial-run-id-used-again", Groups: [][]call{{cGreetA}, {cGreetA}, {cBadIn}, {cBadIn}}, MaxDelay: 0},
 		{Name: "6-rejected-1-good-concurrent-reader-stalls", StallReader: true, MaxDelay: -1,
 			Groups: [][]call{{badIn("e1"), badIn("e2"), badIn("e3"), badIn("e4"), badIn("e5"), badIn("e6"), cGreetA}}},
 		{Name: "1-echo-rich-payload", Groups: [][]call{{cEcho}}, MaxDelay: 0},
@@ -264,6 +265,8 @@ func genSession(i int, w *ukit.Spec) session {
 	}
 	return se
 }
+
+func resKey(group int, run string) string { return fmt.Sprintf("%d/%s", group, run) }
 
 func clipName(n string) string {
 	if len(n) > 60 {
@@ -425,7 +428,8 @@ func body(se *session) func() {
 			o.schemaErr = err
 			return
 		}
-		for _, g := range se.Groups {
+		for gi, g := range se.Groups {
+			gi := gi
 			var wg mcrt.WaitGroup
 			for _, c := range g {
 				c := c
@@ -437,7 +441,7 @@ func body(se *session) func() {
 						close(to)
 					}
 					res := cli.Execute(schema.Input{RunID: c.RunID, ID: c.Step, InputData: c.Input}, to, nil)
-					o.results[c.RunID] = append(o.results[c.RunID], res)
+					o.results[resKey(gi, c.RunID)] = append(o.results[resKey(gi, c.RunID)], res)
 				}
 				if len(g) == 1 {
 					run()
@@ -506,23 +510,23 @@ func judge(se *session, r *mcrt.Result) (string, []mc.Finding) {
 		add("Close failed on a healthy connection", o.closeErr.Error())
 	}
 	var ks []string
-	issued := map[string]int{}
-	for _, g := range se.Groups {
+	// a run id may be used again once its run has returned (another group: each use is a run of its own); used twice
+	// within one group the two calls overlap
+	judged := map[string]bool{}
+	for gi, g := range se.Groups {
+		issued := map[string]int{}
 		for _, c := range g {
 			issued[c.RunID]++
 		}
-	}
-	judged := map[string]bool{}
-	for _, g := range se.Groups {
 		for _, c := range g {
-			rs := o.results[c.RunID]
+			rs := o.results[resKey(gi, c.RunID)]
 			if n := issued[c.RunID]; n > 1 {
 				// the same run id issued more than once at the same time: whichever call the client lets through returns
 				// the in-process result, every other one that result or an error of its own
-				if judged[c.RunID] {
+				if judged[resKey(gi, c.RunID)] {
 					continue
 				}
-				judged[c.RunID] = true
+				judged[resKey(gi, c.RunID)] = true
 				w := se.expected()[c.RunID]
 				good := 0
 				for _, res := range rs {
